@@ -32,7 +32,7 @@ BUDGET_S = {'quick': 240, 'thorough': 2400}
 
 FEATS = ('hier', 'abstract', 'unreg', 'extra', 'enum', 'strlike', 'any',
          'untyped', 'date', 'path', 'buf', 'abstract_containers', 'defaults',
-         'multi', 'hooks', 'permissive', 'adversarial', 'opt_any', 'seasoned', 'underscore')
+         'multi', 'hooks', 'permissive', 'adversarial', 'opt_any', 'seasoned', 'underscore', 'recursive')
 
 EMPTY = ['', '# just a comment\n', '---\n...\n', 'null', '~', '---\n', '\n\n',
          '--- # c\n', '!!null ""', '--- !!str\n']
